@@ -17,6 +17,24 @@ CHECKS = {
             "DESIGN.md §4 C18"),
 }
 
+CHECKS["C01"] = ("model_checking",
+    "TLC exhaustive model checking of the stepper design (IvpProtocol) against the contract (IvpContract) over integer ticks; "
+    "the model's configurations replayed on the real solvers; recorded paths validated by TLC against IvpContract over IEEE doubles",
+    "E1: every behaviour of the design model (all verdict sequences, controller choices, fault points, all configurations in scope) "
+    "satisfies the contract and terminates. E2/E3: each real path (model configurations and seeded random ones) is checked event by "
+    "event by TLC against the same contract instantiated over doubles. The model is an abstraction (integer ticks, nondeterministic "
+    "numerics); the binding to the code is per observed execution.",
+    "Trusted: TLC, F64.java, harness recording, the cfg(bacon_verif) hooks; integer-tick abstraction valid while steps >= 1 tick.",
+    "DESIGN.md §4 C01, App. B")
+CHECKS["C03"] = ("model_checking",
+    "trace validation with action disambiguation: TLC (Val_IvpMethods) explains every yielded point by RK4-start or the advertised "
+    "multistep/RK formula from IvpMethods.tla (literature constants, self-checked by TLC)",
+    "Every point of every recorded path (7 solvers, generic non-linear non-autonomous systems) must be reproduced to 1e-10 by the "
+    "published formula written in TLA+, with the embedded / predictor-corrector estimate within tolerance and the first-trial "
+    "accept/reject decision matching the reference estimate. Per observed execution, not a proof over all inputs.",
+    "Trusted: F64.java, TLC evaluator, IvpMethods constants (order conditions checked by TLC in MC_IvpMethods).",
+    "DESIGN.md §4 C03")
+
 NOT_YET = {}
 
 NA = {
